@@ -239,6 +239,6 @@ func gen(r *rand.Rand, tier string, n int) []any {
 }
 
 func main() {
-	common.Main(common.Prop{ID: "C03", Facts: facts, Gen: gen, Run: run, QuickN: 600, ThoroughN: 12000,
+	common.Main(common.Prop{ID: "C03", Facts: facts, Gen: gen, Run: run, QuickN: 600, ThoroughN: 6000,
 		Preamble: "Open Scope Z_scope.\n"})
 }
